@@ -830,6 +830,18 @@ func (p *P16) f3Pattern() bool {
 	return false
 }
 
+// without returns the program minus the steps selected by drop
+func (p *P16) without(drop func(St16) bool) *P16 {
+	q := *p
+	q.Steps = nil
+	for _, s := range p.Steps {
+		if !drop(s) {
+			q.Steps = append(q.Steps, s)
+		}
+	}
+	return &q
+}
+
 func (p *P16) key() string { return canon(p) }
 
 func (p *P16) collides() bool {
@@ -879,7 +891,7 @@ func compareTie(r *Result, p *P16, real realOut, leanRaw json.RawMessage) {
 }
 
 func tieSuite(r *Result, rng *rand.Rand, tier string) {
-	n := 2500
+	n := 6000
 	if tier == "thorough" {
 		n = 60000
 	} else if tier == "search" {
@@ -1272,7 +1284,11 @@ func maskRows(rows [][]int) [][]int {
 
 // judge16 returns "" if the real outcome is what the property demands for this program
 func judge16(p *P16, real realOut) (string, interface{}, interface{}) {
-	exp := refRun(p)
+	return judgeVs(p, real, refRun(p))
+}
+
+// judgeVs compares the real outcome of p with a given expected outcome
+func judgeVs(p *P16, real realOut, exp O16) (string, interface{}, interface{}) {
 	obsT, expT := maskRows(real.Rows), maskRows(exp.Rows)
 	if canon(obsT) != canon(expT) {
 		return "table after the operation differs from the reference map", obsT, expT
@@ -1304,17 +1320,28 @@ func judgeAndReport(r *Result, e *env16, p *P16) bool {
 		return true
 	}
 	if p.f3Pattern() && listed(f3ID) {
-		// only inside the listed pattern, and only if the failure disappears without the derivations
-		q := *p
-		q.Steps = nil
-		for _, s := range p.Steps {
-			if s.K != "session" && s.K != "ctx" {
-				q.Steps = append(q.Steps, s)
+		// inside the listed pattern only: the chain without the derivations satisfies the reference AND the
+		// observed outcome is exactly the reference outcome of the chain with its Attrs and/or Assign calls
+		// removed (that is what "clone() drops attrs/assigns" produces); anything else is a violation
+		base := p.without(func(s St16) bool { return s.K == "session" || s.K == "ctx" })
+		if w2, _, _ := judge16(base, e.runReal(base)); w2 == "" {
+			for _, drop := range [][]string{{"attrs"}, {"assign"}, {"attrs", "assign"}} {
+				q := base.without(func(s St16) bool {
+					for _, d := range drop {
+						if s.K == d {
+							return true
+						}
+					}
+					return false
+				})
+				if len(q.Steps) == len(base.Steps) {
+					continue
+				}
+				if w3, _, _ := judgeVs(p, real, refRun(q)); w3 == "" {
+					r.KnownFinding(f3ID, "Session/WithContext after Attrs/Assign makes FirstOrInit/FirstOrCreate ignore the attrs/assigns (Statement.clone drops both fields)")
+					return false
+				}
 			}
-		}
-		if w2, _, _ := judge16(&q, e.runReal(&q)); w2 == "" {
-			r.KnownFinding(f3ID, "Session/WithContext after Attrs/Assign changes the FirstOrInit/FirstOrCreate result (Statement.clone drops attrs/assigns)")
-			return false
 		}
 	}
 	r.Violate(Violation{Kind: "e2e", Suite: "e2e", Input: p, Observed: obs, Expected: exp, Note: what})
@@ -1330,7 +1357,7 @@ func f3Witness() *P16 {
 }
 
 func e2eSuite(r *Result, rng *rand.Rand, tier string) {
-	n := 900
+	n := 2200
 	if tier == "thorough" {
 		n = 30000
 	} else if tier == "search" {
